@@ -10,14 +10,6 @@ Variable g : cfg.
 
 (* a direction whose status is STOP or ERROR does not parse *)
 Definition lc_dead (s : Z) : bool := (s =? c_HTP_STREAM_STOP) || (s =? c_HTP_STREAM_ERROR).
-(* connp->out_tx is still attached to a transaction whose response is complete: htp_tx_state_response_complete_ex
-   returned (DATA_OTHER, or a callback refused) before detaching it *)
-Definition lc_out_attached_complete (c : connp) : bool :=
-  match c_out_tx c with
-  | Some i => match tx_slot c i with Some t => t_response_progress t =? c_HTP_RESPONSE_COMPLETE | None => false end
-  | None => false
-  end.
-
 (* checked before a response state function is dispatched *)
 Definition lc_res_pre (c : connp) : bool :=
   match c_out_state c with
@@ -70,7 +62,6 @@ Definition lc_req_ok (data : option bytes) (len : nat) (c : connp) : bool :=
   negb (lc_dead (c_out_status c)) || lc_dead (c_out_status (fst (connp_req_data cb g data len c))).
 (* a response-side call *)
 Definition lc_res_ok (data : option bytes) (len : nat) (c : connp) : bool :=
-  (lc_dead (c_out_status c) || negb (lc_out_attached_complete c)) &&
   (negb (c_in_status c =? c_HTP_STREAM_STOP) || (c_in_status (fst (connp_res_data cb g data len c)) =? c_HTP_STREAM_STOP)) &&
   lc_res_data data len c.
 
